@@ -338,12 +338,13 @@ func newC03env(configureDefault bool) (*c03env, error) {
 	}
 	_ = slog.RegisterLevel(lvlCustErr, "custerr", slog.RegWithTreatedAsLevel(slog.ErrorLevel), slog.RegWithPrintToErrorDevice(true))
 	_ = slog.RegisterLevel(lvlCustPlain, "custplain", slog.RegWithTreatedAsLevel(slog.InfoLevel))
-	_ = slog.RegisterLevel(lvlCustGated, "custgated", slog.RegWithTreatedAsLevel(slog.ErrorLevel))
-	_ = slog.RegisterLevel(lvlCustErrBig, "custerrbig", slog.RegWithPrintToErrorDevice(true))
+	// the error-device request is a yes/no option: an explicit "no" (also as the last of several values) is a no
+	_ = slog.RegisterLevel(lvlCustGated, "custgated", slog.RegWithTreatedAsLevel(slog.ErrorLevel), slog.RegWithPrintToErrorDevice(true, false))
+	_ = slog.RegisterLevel(lvlCustErrBig, "custerrbig", slog.RegWithPrintToErrorDevice(false, true))
 	_ = slog.RegisterLevel(lvlCustErr64, "custerr64", slog.RegWithTreatedAsLevel(slog.WarnLevel), slog.RegWithPrintToErrorDevice(true))
 	_ = slog.RegisterLevel(lvlCustErrNeg, "custerrneg", slog.RegWithTreatedAsLevel(slog.WarnLevel), slog.RegWithPrintToErrorDevice(true))
 	_ = slog.RegisterLevel(lvlCustErrInfo, "custerrinfo", slog.RegWithTreatedAsLevel(slog.InfoLevel), slog.RegWithPrintToErrorDevice(true))
-	_ = slog.RegisterLevel(lvlCustPlain65, "custplain65", slog.RegWithTreatedAsLevel(slog.InfoLevel))
+	_ = slog.RegisterLevel(lvlCustPlain65, "custplain65", slog.RegWithTreatedAsLevel(slog.InfoLevel), slog.RegWithPrintToErrorDevice(false))
 	// registrations that are REFUSED (value or title in use), each asking for the error device: they leave no trace
 	_ = slog.RegisterLevel(slog.InfoLevel, "info-again", slog.RegWithPrintToErrorDevice(true))
 	_ = slog.RegisterLevel(slog.DebugLevel, "debug-again", slog.RegWithPrintToErrorDevice(true), slog.RegWithTreatedAsLevel(slog.ErrorLevel))
